@@ -713,7 +713,7 @@ MISSING: `+` with a plain list, `TreeList(...)` copies, `TreeList`/`CharacterMat
 theorem closed_step_partial (s : Store) (op : Op) (h : Inv s) (hv : valid s op = true) (hc : covered op = true) :
     Inv (step s op).1 := by
   simp only [valid, Bool.and_eq_true] at hv
-  obtain ⟨hr, ho⟩ := hv
+  obtain ⟨⟨_, hr⟩, ho⟩ := hv
   cases op with
   | ns cs labels =>
     simp only [step]
@@ -760,9 +760,14 @@ theorem closed_step_partial (s : Store) (op : Op) (h : Inv s) (hv : valid s op =
     simp only [inRange, decide_eq_true_eq] at hr
     simp only [owner, Bool.and_eq_true, decide_eq_true_eq] at ho
     simp only [step]
-    apply inv_spliceT h l _ _ _ [t] hr
-    intro t' ht'; simp at ht'; subst ht'
-    exact ⟨ok_of_rebindOk h ho.1, ho.2⟩
+    split
+    · apply inv_spliceT h l _ _ _ [t] hr
+      intro t' ht'; simp at ht'; subst ht'
+      exact ⟨ok_of_rebindOk h ho.1, ho.2⟩
+    · show Inv (importTrees s (s.tl l).ns Strat.migrate [t])
+      refine (inv_importTrees (s.tl l).ns Strat.migrate [t] h ?_).1
+      intro t' ht'; simp at ht'; subst ht'
+      exact ok_of_rebindOk h ho.1
   | setslice l a b src =>
     simp only [inRange, decide_eq_true_eq] at hr
     simp only [owner] at ho
@@ -831,10 +836,12 @@ theorem closed_step_partial (s : Store) (op : Op) (h : Inv s) (hv : valid s op =
   | remove l t0 =>
     simp only [inRange, decide_eq_true_eq] at hr
     simp only [step]
-    apply inv_setTrees h l _ hr
-    intro t ht
-    have ht' := List.mem_of_mem_erase ht
-    exact ⟨h.listOk l t ht', h.treeLt l t ht'⟩
+    split
+    · apply inv_setTrees h l _ hr
+      intro t ht
+      have ht' := List.mem_of_mem_erase ht
+      exact ⟨h.listOk l t ht', h.treeLt l t ht'⟩
+    · exact h
   | lclone l n => simp [covered] at hc
   | tclone t n => simp only [step]; exact (inv_cloneTree h t _).1
   | mclone m n => simp [covered] at hc
@@ -1017,6 +1024,7 @@ theorem closed_step_partial (s : Store) (op : Op) (h : Inv s) (hv : valid s op =
     · exact (h.dsLt d).2
   | dsunify d n => simp [covered] at hc
   | dsread d taxa rows trees => simp [covered] at hc
+  | taadd n t => simp only [step]; exact h
 
 /-- a history all of whose steps are in the domain and covered -/
 def validRun (s : Store) : List Op → Bool
@@ -1034,15 +1042,67 @@ theorem closed_reachable_partial : ∀ (ops : List Op) (s : Store), Inv s → va
 theorem closed_from_init_partial (ops : List Op) (hv : validRun init ops = true) : Closed (run init ops) :=
   (closed_reachable_partial ops init inv_init hv).toClosed
 
-/-- clause (c): a tree taken out of a list (`pop`, `del`, `remove`) is left untouched and still refers only to members
-of its own namespace -/
-theorem removed_tree_consistent (s : Store) (h : Inv s) (l i t : Nat) (hl : l < s.nTl) :
-    ((step s (.pop l i)).1.tree t = s.tree t ∧ (step s (.remove l t)).1.tree t = s.tree t)
-    ∧ (∀ x, some x ∈ ((step s (.pop l i)).1.tree t).taxa → x ∈ mem (step s (.pop l i)).1 ((step s (.pop l i)).1.tree t).ns)
-    ∧ (∀ x, some x ∈ ((step s (.remove l t)).1.tree t).taxa → x ∈ mem (step s (.remove l t)).1 ((step s (.remove l t)).1.tree t).ns) := by
-  have v1 : valid s (.pop l i) = true := by simp [valid, inRange, owner, hl]
-  have v2 : valid s (.remove l t) = true := by simp [valid, inRange, owner, hl]
-  exact ⟨⟨rfl, rfl⟩, (closed_step_partial s _ h v1 rfl).treeOk t, (closed_step_partial s _ h v2 rfl).treeOk t⟩
+/-- inside the domain the guarded step the driver runs is `step` -/
+theorem stepG_of_valid {s : Store} {op : Op} (hv : valid s op = true) : stepG s op = step s op := by
+  simp only [valid, Bool.and_eq_true] at hv
+  simp [stepG, hv.1.1]
+
+/-- the driver's step preserves the invariant on the covered, valid operations; outside `idsOk` it refuses and changes nothing -/
+theorem closed_stepG_partial (s : Store) (op : Op) (h : Inv s) (hv : valid s op = true) (hc : covered op = true) :
+    Inv (stepG s op).1 := by
+  rw [stepG_of_valid hv]; exact closed_step_partial s op h hv hc
+
+theorem stepG_refuses (s : Store) (op : Op) (hi : idsOk s op = false) : stepG s op = (s, .indexError) := by
+  simp [stepG, hi]
+
+/-- clause (c): `pop(i)` / `del tl[i]` takes exactly the tree at position `i` out of the list, leaves that tree as it was,
+and the removed tree still refers only to members of its own namespace (as does everything else: `Inv`) -/
+theorem removed_tree_consistent (s : Store) (h : Inv s) (l i t : Nat) (hv : valid s (.pop l i) = true)
+    (ht : (s.tl l).trees[i]? = some t) :
+    (stepG s (.pop l i)).2 = .ok
+    ∧ ((stepG s (.pop l i)).1.tl l).trees = (s.tl l).trees.eraseIdx i
+    ∧ (stepG s (.pop l i)).1.tree t = s.tree t
+    ∧ (∀ x, some x ∈ ((stepG s (.pop l i)).1.tree t).taxa → x ∈ mem (stepG s (.pop l i)).1 ((stepG s (.pop l i)).1.tree t).ns)
+    ∧ Inv (stepG s (.pop l i)).1 := by
+  have i' := closed_stepG_partial s _ h hv rfl
+  refine ⟨?_, ?_, ?_, i'.treeOk t, i'⟩
+  · rw [stepG_of_valid hv]; rfl
+  · rw [stepG_of_valid hv]
+    simp only [step, setTrees, upd, if_true, splice, List.append_nil]
+    rw [List.eraseIdx_eq_take_drop_succ]
+    congr 2
+    omega
+  · rw [stepG_of_valid hv]; rfl
+
+/-- clause (c) for `tl[i] = t'`: the tree that was at position `i` is replaced, is itself left as it was unless it is the
+very tree being assigned, and stays consistent with its own namespace -/
+theorem replaced_tree_consistent (s : Store) (h : Inv s) (l i t t' : Nat) (hv : valid s (.setitem l i t') = true)
+    (ht : (s.tl l).trees[i]? = some t) (hne : t ≠ t') :
+    (stepG s (.setitem l i t')).2 = .ok
+    ∧ ((stepG s (.setitem l i t')).1.tl l).trees = (s.tl l).trees.take i ++ t' :: (s.tl l).trees.drop (i + 1)
+    ∧ (stepG s (.setitem l i t')).1.tree t = s.tree t
+    ∧ (∀ x, some x ∈ ((stepG s (.setitem l i t')).1.tree t).taxa →
+        x ∈ mem (stepG s (.setitem l i t')).1 ((stepG s (.setitem l i t')).1.tree t).ns)
+    ∧ Inv (stepG s (.setitem l i t')).1 := by
+  have i' := closed_stepG_partial s _ h hv rfl
+  have hv' := hv
+  simp only [valid, Bool.and_eq_true, owner, decide_eq_true_eq] at hv'
+  obtain ⟨⟨_, _⟩, ho, hlt⟩ := hv'
+  obtain ⟨_, f, _, o⟩ := inv_importTree h (s.tl l).ns .migrate t' (ok_of_rebindOk h ho)
+  have hi : i < len s l := by
+    have := List.getElem?_eq_some_iff.mp ht
+    obtain ⟨hlt', _⟩ := this
+    exact hlt'
+  refine ⟨?_, ?_, ?_, i'.treeOk t, i'⟩
+  · rw [stepG_of_valid hv]; simp [step, hi]
+  · rw [stepG_of_valid hv]
+    simp only [step, hi, if_true, spliceT, importTrees, setTrees, upd, splice]
+    rw [f.tl]
+    have : max i (i + 1) = i + 1 := by omega
+    simp [this]
+  · rw [stepG_of_valid hv]
+    simp only [step, hi, if_true, spliceT, importTrees, setTrees]
+    exact o t hne
 
 /-- every member of namespace `n` is an already allocated taxon -/
 def FreshNs (s : Store) (n : Nat) : Prop := ∀ x, x ∈ mem s n → x < s.nTaxa
@@ -1130,6 +1190,227 @@ theorem migrate_injective_on_labels_partial (s : Store) (n : Nat) (cs : Bool) (l
   rw [he, require_label_stable _ n cs l2 _ lt] at a2
   rw [← a1, ← a2]
 
+/-! ## clause (b) for whole migrations: `mapTaxa` with a shared memo -/
+
+/-- position-wise relation between the taxon references of an object before and after a pass: same length, a node without
+taxon stays without, a node with taxon `x` gets a taxon `y` with `R x y` -/
+def related (R : Nat → Nat → Prop) : List (Option Nat) → List (Option Nat) → Prop
+  | [], [] => True
+  | none :: xs, none :: ys => related R xs ys
+  | some x :: xs, some y :: ys => R x y ∧ related R xs ys
+  | _, _ => False
+
+namespace Aux
+
+theorem related_mono {R R' : Nat → Nat → Prop} :
+    ∀ (xs ys : List (Option Nat)), (∀ x y, some x ∈ xs → R x y → R' x y) → related R xs ys → related R' xs ys
+  | [], [], _, _ => trivial
+  | [], _ :: _, _, hr => by simp [related] at hr
+  | none :: xs, [], _, hr => by simp [related] at hr
+  | some _ :: xs, [], _, hr => by simp [related] at hr
+  | none :: xs, none :: ys, h, hr => by
+    simp only [related] at hr ⊢; exact related_mono xs ys (fun x y hx => h x y (by simp [hx])) hr
+  | none :: xs, some _ :: ys, _, hr => by simp [related] at hr
+  | some _ :: xs, none :: ys, _, hr => by simp [related] at hr
+  | some x :: xs, some y :: ys, h, hr => by
+    simp only [related] at hr ⊢
+    exact ⟨h x y (by simp) hr.1, related_mono xs ys (fun x y hx => h x y (by simp [hx])) hr.2⟩
+
+theorem related_length {R : Nat → Nat → Prop} : ∀ (xs ys : List (Option Nat)), related R xs ys → xs.length = ys.length
+  | [], [], _ => rfl
+  | [], _ :: _, hr => by simp [related] at hr
+  | none :: xs, [], hr => by simp [related] at hr
+  | some _ :: xs, [], hr => by simp [related] at hr
+  | none :: xs, none :: ys, hr => by simp only [related] at hr; simp [related_length xs ys hr]
+  | none :: xs, some _ :: ys, hr => by simp [related] at hr
+  | some _ :: xs, none :: ys, hr => by simp [related] at hr
+  | some x :: xs, some y :: ys, hr => by simp only [related] at hr; simp [related_length xs ys hr.2]
+
+theorem find?_congr' {p q : Nat → Bool} : ∀ (l : List Nat), (∀ x, x ∈ l → p x = q x) → l.find? p = l.find? q
+  | [], _ => rfl
+  | a :: l, h => by
+    simp only [List.find?_cons]
+    rw [h a (by simp), find?_congr' l (fun x hx => h x (by simp [hx]))]
+
+/-- the store grew from `s0` without disturbing anything `s0` knew about namespace `n` -/
+structure Ext (n : Nat) (s0 s : Store) : Prop where
+  nT : s0.nTaxa ≤ s.nTaxa
+  lab : ∀ y, y < s0.nTaxa → s.label y = s0.label y
+  cs : (s.ns n).cs = (s0.ns n).cs
+  fresh : FreshNs s n
+  look : ∀ lbl y, lookupFirst s0 n (s0.ns n).cs lbl = some y → lookupFirst s n (s0.ns n).cs lbl = some y
+
+theorem Ext.refl {n : Nat} {s : Store} (hf : FreshNs s n) : Ext n s s :=
+  ⟨Nat.le_refl _, fun _ _ => rfl, rfl, hf, fun _ _ h => h⟩
+
+theorem Ext.trans {n : Nat} {a b c : Store} (h1 : Ext n a b) (h2 : Ext n b c) : Ext n a c :=
+  ⟨Nat.le_trans h1.nT h2.nT,
+   fun y hy => (h2.lab y (Nat.lt_of_lt_of_le hy h1.nT)).trans (h1.lab y hy),
+   h2.cs.trans h1.cs, h2.fresh,
+   fun lbl y h => by have := h2.look lbl y (by rw [h1.cs]; exact h1.look lbl y h); rw [h1.cs] at this; exact this⟩
+
+theorem look_newTaxon (s : Store) (n : Nat) (c : Bool) (l0 lbl : String) (hf : FreshNs s n) :
+    lookupFirst (newTaxon s n l0).1 n c lbl
+      = (lookupFirst s n c lbl).or (if keyOf c l0 == keyOf c lbl then some s.nTaxa else none) := by
+  simp only [lookupFirst, newTaxon, mem, upd, if_true]
+  rw [List.find?_append]
+  congr 1
+  · apply find?_congr'
+    intro x hx
+    have : x ≠ s.nTaxa := Nat.ne_of_lt (hf x hx)
+    simp [this]
+  · simp [List.find?_cons]
+    split <;> simp_all
+
+theorem ext_newTaxon (s : Store) (n : Nat) (l0 : String) (hf : FreshNs s n) : Ext n s (newTaxon s n l0).1 := by
+  refine ⟨by simp [newTaxon], ?_, by simp [newTaxon, upd], ?_, ?_⟩
+  · intro y hy; simp [newTaxon, upd, Nat.ne_of_lt hy]
+  · intro x hx
+    simp [newTaxon, mem, upd] at hx ⊢
+    rcases hx with hx | hx
+    · exact Nat.lt_succ_of_lt (hf x hx)
+    · omega
+  · intro lbl y h
+    rw [look_newTaxon s n _ l0 lbl hf, h]; rfl
+
+/-- the memo agrees with label resolution in the target (what `require_taxon` would answer) -/
+def MemoOk (s : Store) (n : Nat) (m : Memo) : Prop :=
+  ∀ x y, memoGet m x = some y → x < s.nTaxa ∧ lookupFirst s n (s.ns n).cs (s.label x) = some y
+
+theorem memoOk_nil (s : Store) (n : Nat) : MemoOk s n [] := by intro x y h; simp [memoGet] at h
+
+theorem memoOk_ext {n : Nat} {s s' : Store} {m : Memo} (e : Ext n s s') (h : MemoOk s n m) : MemoOk s' n m := by
+  intro x y hxy
+  obtain ⟨lt, lk⟩ := h x y hxy
+  refine ⟨Nat.lt_of_lt_of_le lt e.nT, ?_⟩
+  rw [e.cs, e.lab x lt]; exact e.look _ _ lk
+
+/-- one item of a label-unifying pass: the item lands on what label resolution in the (grown) target answers for its label -/
+theorem mapOne_unify (s : Store) (n : Nat) (memo : Memo) (x : Nat) (hf : FreshNs s n) (hx : x < s.nTaxa) (hm : MemoOk s n memo) :
+    Ext n s (mapOne s n true memo x).1
+    ∧ lookupFirst (mapOne s n true memo x).1 n (s.ns n).cs (s.label x) = some (mapOne s n true memo x).2.2
+    ∧ MemoOk (mapOne s n true memo x).1 n (mapOne s n true memo x).2.1 := by
+  unfold mapOne
+  simp only [Bool.true_or, if_true]
+  cases hg : memoGet memo x with
+  | some t =>
+    simp only []
+    have lk := (hm x t hg).2
+    have tin : t ∈ mem s n := lookupFirst_mem lk
+    have e : addMember s n t = s := by simp [addMember, tin]
+    rw [e]
+    exact ⟨Ext.refl hf, lk, hm⟩
+  | none =>
+    simp only []
+    cases hl : lookupFirst s n (s.ns n).cs (s.label x) with
+    | some y =>
+      have r : require s n (s.ns n).cs (s.label x) = (s, y) := require_of_lookup hl
+      rw [r]
+      refine ⟨Ext.refl hf, hl, ?_⟩
+      intro q z hq
+      simp only [memoGet, List.find?_cons] at hq
+      by_cases e : x = q
+      · subst e; simp at hq; subst hq; exact ⟨hx, hl⟩
+      · have : (x == q) = false := by simp [e]
+        simp only [this] at hq
+        exact hm q z hq
+    | none =>
+      have r : require s n (s.ns n).cs (s.label x) = newTaxon s n (s.label x) := by unfold require; rw [hl]
+      rw [r]
+      have ex := ext_newTaxon s n (s.label x) hf
+      have lk : lookupFirst (newTaxon s n (s.label x)).1 n (s.ns n).cs (s.label x) = some (newTaxon s n (s.label x)).2 := by
+        rw [look_newTaxon s n _ _ _ hf, hl]; simp [newTaxon]
+      refine ⟨ex, lk, ?_⟩
+      intro q z hq
+      simp only [memoGet, List.find?_cons] at hq
+      by_cases e : x = q
+      · subst e
+        simp at hq; subst hq
+        refine ⟨Nat.lt_of_lt_of_le hx ex.nT, ?_⟩
+        rw [ex.cs, ex.lab x hx]; exact lk
+      · have : (x == q) = false := by simp [e]
+        simp only [this] at hq
+        exact memoOk_ext ex hm q z hq
+
+end Aux
+
+/-- CLAUSE (b) FOR A WHOLE PASS.  A label-unifying pass (`unify_taxa_by_label=True`) over the node taxa `xs` of a tree into
+namespace `n`, with any memo that agrees with label resolution (the empty memo; the memo handed on by the previous tree of
+a `TreeList` / component of a `DataSet`): nothing is dropped or invented (same length, nodes without taxon stay so), and every
+node with taxon `x` ends on the taxon `y` that label resolution in the final namespace answers for `x`'s label — so `y` is a
+member of `n` carrying `x`'s label up to the case rule.  The outgoing memo and store satisfy the hypotheses again (composes
+over `migrateTrees`/`migrateTls`). -/
+theorem mapTaxa_unify_spec (n : Nat) : ∀ (xs : List (Option Nat)) (s : Store) (memo : Memo),
+    FreshNs s n → (∀ x, some x ∈ xs → x < s.nTaxa) → MemoOk s n memo →
+    related (fun x y => lookupFirst (mapTaxa s n true memo xs).1 n (s.ns n).cs (s.label x) = some y) xs (mapTaxa s n true memo xs).2.2
+    ∧ Ext n s (mapTaxa s n true memo xs).1
+    ∧ MemoOk (mapTaxa s n true memo xs).1 n (mapTaxa s n true memo xs).2.1
+  | [], s, memo, hf, _, hm => ⟨trivial, Ext.refl hf, hm⟩
+  | none :: xs, s, memo, hf, hx, hm => by
+    simp only [mapTaxa, related]
+    exact mapTaxa_unify_spec n xs s memo hf (fun x h => hx x (by simp [h])) hm
+  | some x :: xs, s, memo, hf, hx, hm => by
+    simp only [mapTaxa, related]
+    obtain ⟨e1, l1, m1⟩ := mapOne_unify s n memo x hf (hx x (by simp)) hm
+    have hx' : ∀ x', some x' ∈ xs → x' < (mapOne s n true memo x).1.nTaxa :=
+      fun x' h => Nat.lt_of_lt_of_le (hx x' (by simp [h])) e1.nT
+    obtain ⟨r2, e2, m2⟩ := mapTaxa_unify_spec n xs _ _ e1.fresh hx' m1
+    refine ⟨⟨?_, ?_⟩, e1.trans e2, m2⟩
+    · have := e2.look _ _ (by rw [e1.cs]; exact l1)
+      rw [e1.cs] at this; exact this
+    · refine related_mono xs _ ?_ r2
+      intro x' y' hin h
+      rw [e1.cs, e1.lab x' (hx x' (by simp [hin]))] at h
+      exact h
+
+/-- what "label resolution answers `y`" means: `y` is a member of the namespace and carries the label up to the case rule -/
+theorem resolved_member_label (s : Store) (n : Nat) (c : Bool) (lbl : String) (y : Nat)
+    (h : lookupFirst s n c lbl = some y) : y ∈ mem s n ∧ keyOf c (s.label y) = keyOf c lbl := by
+  refine ⟨lookupFirst_mem h, ?_⟩
+  unfold lookupFirst at h
+  simpa using List.find?_some h
+
+/-- clause (b), the partition: two items of one pass (or of passes sharing the final namespace) sit on the same taxon exactly
+when their labels are equal under the namespace's case rule — equal labels are never spread over two taxa, different labels
+never merged; also for namespaces that already hold several taxa with one label -/
+theorem same_taxon_iff_equal_labels (s : Store) (n : Nat) (c : Bool) (l1 l2 : String) (y1 y2 : Nat)
+    (h1 : lookupFirst s n c l1 = some y1) (h2 : lookupFirst s n c l2 = some y2) :
+    y1 = y2 ↔ keyOf c l1 = keyOf c l2 := by
+  constructor
+  · intro e
+    have a := (resolved_member_label s n c l1 y1 h1).2
+    have b := (resolved_member_label s n c l2 y2 h2).2
+    rw [← a, ← b, e]
+  · intro e
+    have : lookupFirst s n c l1 = lookupFirst s n c l2 := by simp only [lookupFirst, e]
+    rw [this, h2] at h1
+    exact (Option.some.inj h1).symm
+
+/-- nothing is dropped or invented by any pass, unifying or not: same number of nodes, and exactly the nodes that had a
+taxon have one afterwards -/
+theorem mapTaxa_shape (n : Nat) (u : Bool) : ∀ (xs : List (Option Nat)) (s : Store) (memo : Memo),
+    related (fun _ _ => True) xs (mapTaxa s n u memo xs).2.2
+  | [], _, _ => trivial
+  | none :: xs, s, memo => by simp only [mapTaxa, related]; exact mapTaxa_shape n u xs s memo
+  | some x :: xs, s, memo => by simp only [mapTaxa, related]; exact ⟨trivial, mapTaxa_shape n u xs _ _⟩
+
+/-- `Tree.migrate_taxon_namespace(ns, unify_taxa_by_label=True)` / `reconstruct_taxon_namespace()`: the tree is bound to `n`
+and its node taxa are the unified images of the old ones (`mapTaxa_unify_spec`) -/
+theorem migrateTree_unify_spec (s : Store) (t n : Nat) (memo : Memo)
+    (hf : FreshNs s n) (hx : ∀ x, some x ∈ (s.tree t).taxa → x < s.nTaxa) (hm : Aux.MemoOk s n memo) :
+    ((migrateTree s t n true memo).1.tree t).ns = n
+    ∧ related (fun x y => lookupFirst (migrateTree s t n true memo).1 n (s.ns n).cs (s.label x) = some y
+                          ∧ y ∈ mem (migrateTree s t n true memo).1 n)
+        (s.tree t).taxa ((migrateTree s t n true memo).1.tree t).taxa
+    ∧ FreshNs (migrateTree s t n true memo).1 n
+    ∧ Aux.MemoOk (migrateTree s t n true memo).1 n (migrateTree s t n true memo).2 := by
+  obtain ⟨r, e, m⟩ := mapTaxa_unify_spec n (s.tree t).taxa s memo hf hx hm
+  refine ⟨by simp [migrateTree, setTree, upd], ?_, e.fresh, m⟩
+  simp only [migrateTree, setTree, upd, if_true]
+  refine Aux.related_mono _ _ ?_ r
+  intro x y _ h
+  exact ⟨h, lookupFirst_mem h⟩
+
 /-! ## non-vacuity: the hypotheses are satisfiable and the conclusions are not trivial -/
 
 /-- a foreign tree appended to a list of another namespace: valid, covered, and the world stays closed -/
@@ -1141,5 +1422,34 @@ example : valid (run init [.ns false ["A"], .ns false ["B"], .tree 0 [some 0], .
     (.append 1 0 .migrate) = false := by decide +kernel
 
 example : FreshNs init 0 := by intro x hx; simp [init, mem] at hx
+
+/-- a reachable, non-empty world: case-insensitive namespace 0 = [A, b], case-sensitive namespace 1 = [a, A, C], tree 0 in
+namespace 1 on (C, a, A) -/
+def demo : Store := run init [.ns false ["A", "b"], .ns true ["a", "A", "C"], .tree 1 [some 2, some 0, some 1]]
+
+/-- the hypotheses of `mapTaxa_unify_spec` / `migrateTree_unify_spec` hold there (with the empty memo) ... -/
+example : FreshNs demo 0 ∧ (∀ x, some x ∈ (demo.tree 0).taxa → x < demo.nTaxa) ∧ Aux.MemoOk demo 0 [] := by
+  refine ⟨?_, ?_, Aux.memoOk_nil _ _⟩
+  · intro x hx
+    have : (mem demo 0).all (fun x => decide (x < demo.nTaxa)) = true := by decide +kernel
+    exact of_decide_eq_true (List.all_eq_true.mp this x hx)
+  · intro x hx
+    have : (demo.tree 0).taxa.all (fun o => match o with | some x => decide (x < demo.nTaxa) | none => true) = true := by decide +kernel
+    have := List.all_eq_true.mp this (some x) hx
+    exact of_decide_eq_true this
+
+/-- ... and the conclusion is not trivial: `a` and `A` of the case-sensitive source end on the ONE taxon `A` (0) of the
+case-insensitive target, `C` on a new taxon (5) -/
+example : ((migrateTree demo 0 0 true []).1.tree 0).taxa = [some 5, some 0, some 0]
+    ∧ mem (migrateTree demo 0 0 true []).1 0 = [0, 1, 5] := by decide +kernel
+
+/-- the ownership hypothesis of `closed_step_partial` cannot be dropped: importing a tree that another list of a different
+namespace still holds is what the code does (in-place migration) and it breaks clause (a) for the first list -/
+example : ¬ Closed (run init [.ns false ["A"], .ns false ["B"], .tree 0 [some 0], .tlist (some 0), .tlist (some 1),
+    .append 0 0 .migrate, .append 1 0 .migrate]) := by
+  intro h
+  have := h.listOk 0 0 (by decide +kernel)
+  revert this
+  decide +kernel
 
 end DendroModel.C11
